@@ -410,18 +410,18 @@ class Vector(AutoSerialize):
             raise TypeError("For fancy indexing, value must be a list of numpy arrays")
 
         # Validate and set values
-        for idx in np.ndindex(*[len(i) for i in indices_arrays]):
+        for k, idx in enumerate(np.ndindex(*[len(i) for i in indices_arrays])):
             src_idx = tuple(ind[i] for ind, i in zip(indices_arrays, idx))
-            if not isinstance(value[idx[0]], np.ndarray):
-                raise TypeError(f"Expected numpy array, got {type(value[idx[0]]).__name__}")
-            if value[idx[0]].ndim != 2 or value[idx[0]].shape[1] != self.num_fields:
+            if not isinstance(value[k], np.ndarray):
+                raise TypeError(f"Expected numpy array, got {type(value[k]).__name__}")
+            if value[k].ndim != 2 or value[k].shape[1] != self.num_fields:
                 raise ValueError(
-                    f"Expected array with shape (_, {self.num_fields}), got {value[idx[0]].shape}"
+                    f"Expected array with shape (_, {self.num_fields}), got {value[k].shape}"
                 )
             ref = self._data
             for i in src_idx[:-1]:
                 ref = ref[i]
-            ref[src_idx[-1]] = value[idx[0]]
+            ref[src_idx[-1]] = value[k]
 
     @overload
     def __getitem__(self, idx: str) -> "_FieldView": ...
